@@ -12,6 +12,7 @@ mod bigmod;
 mod events;
 mod faults;
 mod gen;
+mod golden;
 mod model;
 mod obs;
 mod rng;
@@ -120,6 +121,10 @@ fn main() {
         "check" => {
             let code = supervisor::check(&args[2], args.get(3).map(|s| s.as_str()).unwrap_or("quick"), &args[4..]);
             std::process::exit(code);
+        }
+        "determinism" => {
+            let n: u64 = args.get(2).and_then(|s| s.parse().ok()).unwrap_or(200);
+            std::process::exit(supervisor::determinism(n));
         }
         "selftest" => {
             std::process::exit(supervisor::selftest());
